@@ -76,6 +76,10 @@ func runC06(env *lib.Env, rep *lib.Report) {
 			{atoms: []qAtom{{qc(a, "k"), qc(b, "k"), "="}, {qc(a, "k"), ql(int64(2)), "="}}, ors: []bool{true}},
 			{atoms: []qAtom{{ql(int64(1)), ql(int64(1)), "="}}},
 			{atoms: []qAtom{{ql(int64(1)), ql(int64(2)), "="}}},
+			// an unqualified name that both sides have, in the right operand of AND / OR (must be rejected, whether or
+			// not the left operand already decides)
+			{atoms: []qAtom{{qc(a, "k"), qc(b, "k"), "="}, {qc("", "k"), ql(int64(1)), "="}}, ors: []bool{false}},
+			{atoms: []qAtom{{qc(a, "k"), qc(b, "k"), "!="}, {qc("", "k"), ql(int64(1)), "="}}, ors: []bool{true}},
 			// three atoms where the grouping of AND and OR decides the answer: (p AND q) OR r, p OR (q AND r)
 			{atoms: []qAtom{{qc(a, "k"), qc(b, "k"), "="}, {qc(b, kb), ql(int64(100)), ">"}, {qc(a, "k"), ql(int64(2)), "="}}, ors: []bool{false, true}},
 			{atoms: []qAtom{{qc(a, "k"), ql(int64(2)), "="}, {qc(a, "k"), qc(b, "k"), "="}, {qc(b, kb), ql(int64(100)), ">"}}, ors: []bool{true, false}},
@@ -133,7 +137,7 @@ func runC06(env *lib.Env, rep *lib.Report) {
 			}
 		}
 	}
-	rep.Bounds["FROM clauses"] = fmt.Sprintf("%d join chains (1..2 joins; INNER JOIN / JOIN / LEFT JOIN / RIGHT JOIN; self-joins under aliases; 9 ON conditions incl. AND/OR, mixed AND/OR of three atoms and constants)", len(froms))
+	rep.Bounds["FROM clauses"] = fmt.Sprintf("%d join chains (1..2 joins; INNER JOIN / JOIN / LEFT JOIN / RIGHT JOIN; self-joins under aliases; 11 ON conditions incl. an ambiguous unqualified name behind AND / OR, AND/OR, mixed AND/OR of three atoms and constants)", len(froms))
 	cT, cU, cV := c06Contents("t"), c06Contents("u"), c06Contents("v")
 	rep.Bounds["table contents"] = fmt.Sprintf("%d x %d x %d: all multisets of <= 2 rows over keys {1,2} per table (empty sides, duplicate keys)", len(cT), len(cU), len(cV))
 	rep.Bounds["select lists per FROM"] = "*; all columns qualified by table id; unqualified unique column; unqualified ambiguous column k (must be rejected); column qualified by the table name although an alias exists (must be rejected)"
